@@ -32,9 +32,10 @@ fn f32_any(r: &mut Rng) -> f32 {
 }
 
 fn gen_pth(r: &mut Rng, max_nodes: usize) -> Pth {
-    let n = match r.below(5) {
+    let n = match r.below(6) {
         0 => 0,
         1 => 1,
+        2 => max_nodes,
         _ => r.usize_below(max_nodes + 1),
     };
     let mut p = Pth::default();
@@ -94,7 +95,8 @@ fn gen_smx(r: &mut Rng, max_obj: usize, max_pts: usize, max_tri: usize, max_cp: 
             triangles: (0..r.usize_below(max_tri + 1)).map(|_| Triangle { a: r.below(65536) as u16, b: r.below(65536) as u16, c: r.below(65536) as u16 }).collect(),
         })
         .collect();
-    s.checkpoint_object_index = (0..r.usize_below(max_cp + 1)).map(|_| r.next_u32() as i32).collect();
+    let ncp = if r.chance(1, 3) { max_cp } else { r.usize_below(max_cp + 1) };
+    s.checkpoint_object_index = (0..ncp).map(|_| r.next_u32() as i32).collect();
     s
 }
 
@@ -246,7 +248,7 @@ pub fn run(ctx: &mut Ctx) -> (&'static str, String, bool) {
     let (shard, _nshards) = ctx.shard;
     let thorough = ctx.tier == Tier::Thorough;
     let base_rng = ctx.rng.fork(17);
-    let n_files = if miri { 3 } else { ctx.tier.pick(300u64, 6000u64) };
+    let n_files = if miri { 3 } else { ctx.tier.pick(1_500u64, 30_000u64) };
 
     // ---- generated valid files: round trip, canonical image, truncation at every point ---------------
     let parts: Vec<Part> = (0..n_files)
@@ -267,7 +269,18 @@ pub fn run(ctx: &mut Ctx) -> (&'static str, String, bool) {
                     p.sample(json!({"format": "PTH", "nodes": x.nodes.len(), "file_len": canonical.len(), "head": hex(&canonical[..canonical.len().min(32)])}));
                 }
             } else {
-                let x = if miri { gen_smx(&mut r, 2, 3, 3, 2) } else if i % 10 == 1 { gen_smx(&mut r, 20, 40, 40, 8) } else { gen_smx(&mut r, 3, 5, 5, 3) };
+                let x = if miri {
+                    gen_smx(&mut r, 2, 3, 3, 2)
+                } else {
+                    match i % 20 {
+                        1 => gen_smx(&mut r, 20, 40, 40, 8),
+                        3 => gen_smx(&mut r, 2, 3, 3, 400),   // many checkpoints
+                        5 => gen_smx(&mut r, 2, 400, 3, 2),   // many points
+                        7 => gen_smx(&mut r, 2, 3, 400, 2),   // many triangles
+                        9 => gen_smx(&mut r, 150, 2, 2, 2),   // many objects
+                        _ => gen_smx(&mut r, 3, 5, 5, 3),
+                    }
+                };
                 let canonical = ref_smx_bytes(&x);
                 let w = guarded(|| {
                     let mut c = Cursor::new(Vec::new());
@@ -352,7 +365,7 @@ pub fn run(ctx: &mut Ctx) -> (&'static str, String, bool) {
     }
 
     // ---- mutated and random inputs ---------------------------------------------------------------------
-    let n_mut = if miri { 40 } else { ctx.tier.pick(60_000u64, 3_000_000u64) };
+    let n_mut = if miri { 40 } else { ctx.tier.pick(400_000u64, 20_000_000u64) };
     let parts: Vec<Part> = (0u64..16)
         .into_par_iter()
         .map(|t| {
